@@ -26,9 +26,12 @@ CLAIMS = {
              "the compiled Go functions over all 2^24 inputs; clause statements in coq/Props/MapProps.v.",
         tech=SWEEP, ref="DESIGN.md 5/C04"),
     "C05": dict(
-        text="Coq theorem per mapper, forall n < 2^24: image windows, rejected pak window, console-owned areas, 8 KiB page structure in both directions; exhaustive kernel sweep "
-             "over regenerated functions.",
-        note="As C04. Clause (v) 'documented region table' is covered through clauses (i)-(iv) + the class windows; see DESIGN.md.",
+        text="Coq theorems per mapper, forall n < 2^24: image windows, rejected pak window, console-owned areas, 8 KiB page structure in both directions (C05_<m>), and "
+             "BusAddressToPak n = MapSpec.lookup table_<m> n, i.e. class and linear position of the documented region table, with the documented mirrors (C05_region_<m>, "
+             "C05_class_pos_<m>, C05_mirrors_<m>); exhaustive kernel sweeps over regenerated functions.",
+        note="As C04. 'Documented region table' = coq/Spec/MapSpec.v, declarative rows transcribed from the comments of mapping/*/mapping.go and the rows of the passing "
+             "TestBusAddressToPak tables (not a hardware manual); statically proved: rows disjoint, positions inside their class window, documented mirrors, all 198 test rows "
+             "reproduced. The Go falsifier carries a second, independently encoded transcription (clause C05.region_table).",
         tech=SWEEP, ref="DESIGN.md 5/C05"),
     "C17": dict(
         text="Coq theorems over color15 regenerated from source: unpack/pack (all 2^16 colours, all 2^24 byte triples), luminosity, and MulDiv = per-channel saturated floor "
